@@ -27,6 +27,9 @@ type gvar struct {
 	t    Typ
 	kind vkind
 	ro   int // >0: may not be assigned (loop variable, loop bound input, loop counter)
+	// counter: the counter of an enclosing conditional / infinite loop (non-negative,
+	// changes every iteration): a good selector for if-chains
+	counter bool
 }
 
 type G struct {
@@ -38,6 +41,13 @@ type G struct {
 	maxExpr  int
 	quirk    string // one deliberately odd construct to place (see quirks), "" = none
 	quirkHit bool
+	// control-flow oriented generation (genCtlFunc): acc is an i64 accumulator whose
+	// updates (acc = acc * 3 + c, order-sensitive) make the executed path observable;
+	// hints collects, per parameter, the constants its selector conditions compare it to
+	// (and their neighbours) so that the argument vectors drive every arm.
+	ctl   bool
+	acc   string
+	hints map[string][]Value
 }
 
 var floatTexts = []string{
@@ -266,6 +276,8 @@ type blockOpts struct {
 	depth    int  // nesting budget
 	mayRet   bool // early return allowed
 	noFinalD bool // the block must not end in a diverging statement
+	pDiv     int  // percent chance that the block ends in break/continue (inside loops)
+	pRet     int  // percent chance that the block ends in an early return
 }
 
 // block returns the statements and whether the block certainly diverges (ends in
@@ -276,13 +288,83 @@ func (g *G) block(o blockOpts) ([]*S, bool) {
 	return g.stmts(o)
 }
 
+// bump: acc = acc * 3 + c — an order-sensitive trace of the path taken.
+func (g *G) bump() *S {
+	g.ctr++
+	var add *E
+	if lv := g.loopish(); lv != nil && g.r.Chance(3, 10) {
+		add = mkVar(lv.name, lv.t)
+		if lv.t != I64 {
+			add = mkCast(I64, add)
+		}
+	} else {
+		add = litInt(I64, uint64(1+g.ctr%89), true)
+	}
+	x := mkArith("+", mkArith("*", mkVar(g.acc, I64), litInt(I64, 3, true)), add)
+	return &S{K: SAssign, Name: g.acc, T: I64, X: x}
+}
+
+// loopish returns a loop variable or loop counter in scope (innermost preferred).
+func (g *G) loopish() *gvar {
+	var c []*gvar
+	for _, v := range g.vars {
+		if v.kind == vLoop || (v.kind == vLocal && v.counter) {
+			c = append(c, v)
+		}
+	}
+	if len(c) == 0 {
+		return nil
+	}
+	if g.r.Chance(3, 5) {
+		return c[len(c)-1]
+	}
+	return c[g.r.Intn(len(c))]
+}
+
 // stmts generates statements into the current scope (declarations stay visible to the
 // caller).
 func (g *G) stmts(o blockOpts) ([]*S, bool) {
 	var out []*S
+	maxLoops := 2
+	if g.ctl {
+		maxLoops = 3
+	}
 	for i := 0; i < o.n; i++ {
-		last := i == o.n-1
+		if i == o.n-1 && !o.noFinalD {
+			roll := g.r.Intn(100)
+			if g.loops > 0 && roll < o.pDiv {
+				k := SBreak
+				if g.r.Bool() {
+					k = SContinue
+				}
+				out = append(out, &S{K: k})
+				return out, true
+			}
+			if o.mayRet && roll >= o.pDiv && roll < o.pDiv+o.pRet {
+				out = append(out, &S{K: SReturn, X: g.expr(g.ret, g.maxExpr-1, false)})
+				return out, true
+			}
+		}
 		n := g.r.Intn(100)
+		if g.ctl {
+			switch {
+			case n < 28 && g.acc != "":
+				out = append(out, g.bump())
+			case n < 62 && o.depth > 0:
+				out = append(out, g.ifStmt(o))
+			case n < 78 && o.depth > 0 && g.loops < maxLoops:
+				out = append(out, g.loop(o)...)
+			case n < 88:
+				if s := g.assign(); s != nil {
+					out = append(out, s)
+				} else {
+					out = append(out, g.decl())
+				}
+			default:
+				out = append(out, g.decl())
+			}
+			continue
+		}
 		switch {
 		case n < 22:
 			out = append(out, g.decl())
@@ -298,20 +380,10 @@ func (g *G) stmts(o blockOpts) ([]*S, bool) {
 			} else {
 				out = append(out, g.decl())
 			}
-		case n < 72 && o.depth > 0:
+		case n < 74 && o.depth > 0:
 			out = append(out, g.ifStmt(o))
-		case n < 86 && o.depth > 0 && g.loops < 2:
+		case n < 90 && o.depth > 0 && g.loops < maxLoops:
 			out = append(out, g.loop(o)...)
-		case n < 93 && last && !o.noFinalD && o.mayRet:
-			out = append(out, &S{K: SReturn, X: g.expr(g.ret, g.maxExpr-1, false)})
-			return out, true
-		case n < 97 && last && !o.noFinalD && g.loops > 0:
-			k := SBreak
-			if g.r.Bool() {
-				k = SContinue
-			}
-			out = append(out, &S{K: k})
-			return out, true
 		default:
 			out = append(out, g.decl())
 		}
@@ -379,27 +451,126 @@ func (g *G) compound() *S {
 	return &S{K: SCompound, Name: v.name, T: v.t, Op: op, X: x}
 }
 
+// selectorCond: a variable in scope (loop variables and counters preferred, then
+// parameters and locals) compared with a small constant, so that the arms of a chain are
+// all reachable: by the iterations of the enclosing loop, or by the argument vectors,
+// which get the constants and their neighbours as hints.
+func (g *G) selectorCond() *E {
+	v := g.loopish()
+	if v == nil || g.r.Chance(3, 10) {
+		var c []*gvar
+		for _, x := range g.vars {
+			if x.name != g.acc {
+				c = append(c, x)
+			}
+		}
+		if len(c) == 0 {
+			return nil
+		}
+		v = c[g.r.Intn(len(c))]
+	}
+	t := v.t
+	hint := func(vals ...Value) {
+		if v.kind == vParam && g.hints != nil {
+			g.hints[v.name] = append(g.hints[v.name], vals...)
+		}
+	}
+	if t.IsFloat() {
+		texts := []string{"0.0", "1.0", "2.0", "3.0", "0.5", "2.5"}
+		text := texts[g.r.Intn(len(texts))]
+		l := litFloat(t, text, g.r.Bool())
+		f := l.V.Float()
+		for _, d := range []float64{-1, -0.5, 0, 0.5, 1} {
+			if t == F32 {
+				hint(f32Value(float32(f + d)))
+			} else {
+				hint(f64Value(f + d))
+			}
+		}
+		return mkCmp([]string{"<", ">", "<=", ">="}[g.r.Intn(4)], mkVar(v.name, t), l)
+	}
+	nonNeg := t.Unsigned() || v.kind == vLoop || v.counter
+	if nonNeg && g.r.Chance(1, 5) {
+		m := g.r.Range(2, 4)
+		c := g.r.Intn(m)
+		for k := 0; k <= m; k++ {
+			hint(uintValue(t, uint64(k)))
+		}
+		return mkCmp("==", mkArith("%", mkVar(v.name, t), litInt(t, uint64(m), g.r.Bool())), litInt(t, uint64(c), g.r.Bool()))
+	}
+	c := g.r.Intn(7)
+	for _, d := range []int{-1, 0, 1} {
+		x := c + d
+		if x < 0 && t.Unsigned() {
+			continue
+		}
+		hint(decodeResult(t, uint64(int64(x))))
+	}
+	return mkCmp(cmpOps[g.r.Intn(len(cmpOps))], mkVar(v.name, t), litInt(t, uint64(c), g.r.Bool()))
+}
+
 func (g *G) condExpr() *E {
+	pSel := 35
+	if g.ctl {
+		pSel = 75
+	}
+	if g.r.Intn(100) < pSel {
+		if c := g.selectorCond(); c != nil {
+			return c
+		}
+	}
 	if g.r.Chance(3, 4) {
 		return g.cmp(g.maxExpr - 1)
 	}
 	return g.expr(U8, g.maxExpr-1, true)
 }
 
+// ifStmt: if / (else if)* / else? with 0..4 else-if arms. Any arm, including later
+// else-ifs and the final else, may end in break / continue (inside loops) or an early
+// return. In 3 of 4 chains one randomly chosen arm is kept from diverging so that the
+// statements after the chain stay reachable through the chain itself; in the rest every
+// arm may diverge (the analyzer accepts the unreachable tail).
 func (g *G) ifStmt(o blockOpts) *S {
-	s := &S{K: SIf, X: g.condExpr()}
-	sub := blockOpts{n: g.r.Range(1, 3), depth: o.depth - 1, mayRet: o.mayRet}
-	s.Body, _ = g.block(sub)
-	for k := g.r.Intn(3); k > 1; k-- {
-		sub.n = g.r.Range(1, 2)
-		b, _ := g.block(sub)
-		s.Elifs = append(s.Elifs, Elif{X: g.condExpr(), Body: b})
+	nel := 0
+	switch n := g.r.Intn(100); {
+	case n < 28:
+		nel = 0
+	case n < 52:
+		nel = 1
+	case n < 74:
+		nel = 2
+	case n < 90:
+		nel = 3
+	default:
+		nel = 4
 	}
-	if g.r.Bool() {
+	hasElse := g.r.Chance(11, 20)
+	arms := 1 + nel
+	if hasElse {
+		arms++
+	}
+	keep := -1
+	if !g.r.Chance(1, 4) {
+		keep = g.r.Intn(arms)
+	}
+	pDiv, pRet := 12, 8
+	if g.loops > 0 {
+		pDiv, pRet = 38, 7
+	}
+	arm := func(idx, lo, hi int) []*S {
+		sub := blockOpts{n: g.r.Range(lo, hi), depth: o.depth - 1, mayRet: o.mayRet, noFinalD: idx == keep, pDiv: pDiv, pRet: pRet}
+		b, _ := g.block(sub)
+		return b
+	}
+	s := &S{K: SIf, X: g.condExpr()}
+	s.Body = arm(0, 1, 3)
+	for k := 0; k < nel; k++ {
+		c := g.condExpr()
+		s.Elifs = append(s.Elifs, Elif{X: c, Body: arm(1+k, 1, 2)})
+	}
+	if hasElse {
 		s.HasElse = true
-		sub.n = g.r.Range(1, 3)
-		sub.noFinalD = true // keep the code after the if reachable
-		s.Else, _ = g.block(sub)
+		s.Else = arm(arms-1, 1, 3)
 	}
 	return s
 }
@@ -418,7 +589,18 @@ func usedVars(e *E, into map[string]bool) {
 // loop returns the statements making up one bounded loop (some forms need a counter
 // declared in front).
 func (g *G) loop(o blockOpts) []*S {
-	body := blockOpts{n: g.r.Range(1, 3), depth: o.depth - 1, mayRet: o.mayRet}
+	body := blockOpts{n: g.r.Range(1, 3), depth: o.depth - 1, mayRet: o.mayRet, pDiv: 6, pRet: 5}
+	if g.ctl {
+		body.n = g.r.Range(2, 4)
+	}
+	// tail: statements after whatever the body ends with, so that a wrongly skipped or
+	// wrongly executed remainder of an iteration shows in the accumulator
+	tail := func(b []*S, diverged bool) []*S {
+		if g.acc != "" && !diverged && g.r.Chance(7, 10) {
+			b = append(b, g.bump())
+		}
+		return b
+	}
 	switch g.r.Intn(10) {
 	case 0, 1, 2, 3, 4, 5: // range
 		t := g.pickIntType()
@@ -436,11 +618,15 @@ func (g *G) loop(o blockOpts) []*S {
 			return g.smallLit(t, lo, hi, allBare)
 		}
 		s := &S{K: SForRange, Name: g.fresh("k"), T: t}
+		lo0 := 0
+		if g.ctl {
+			lo0 = 3 // control-flow functions want loops that iterate
+		}
 		switch g.r.Intn(5) {
 		case 0, 1:
-			s.Args = []*E{bound(0, 6)}
+			s.Args = []*E{bound(lo0, 6)}
 		case 2, 3:
-			s.Args = []*E{bound(0, 4), bound(0, 8)}
+			s.Args = []*E{bound(0, 4-lo0), bound(lo0+1, 8)}
 		default:
 			if t.Signed() && g.r.Bool() {
 				// counting down
@@ -466,7 +652,10 @@ func (g *G) loop(o blockOpts) []*S {
 		lv := &gvar{name: s.Name, t: t, kind: vLoop, ro: 1}
 		g.vars = append(g.vars, lv)
 		g.loops++
-		s.Body, _ = g.block(body)
+		mark := len(g.vars)
+		b, div := g.stmts(body)
+		s.Body = tail(b, div)
+		g.vars = g.vars[:mark]
 		g.loops--
 		g.vars = g.vars[:len(g.vars)-1]
 		for _, v := range locked {
@@ -476,8 +665,12 @@ func (g *G) loop(o blockOpts) []*S {
 	default: // counter-driven conditional / infinite loop
 		t := g.pickIntType()
 		cn := g.fresh("c")
-		decl := &S{K: SDecl, Name: cn, T: t, Explicit: true, X: g.smallLit(t, 0, 6, true)}
-		cv := &gvar{name: cn, t: t, kind: vLocal, ro: 1}
+		clo := 0
+		if g.ctl {
+			clo = 2
+		}
+		decl := &S{K: SDecl, Name: cn, T: t, Explicit: true, X: g.smallLit(t, clo, 6, true)}
+		cv := &gvar{name: cn, t: t, kind: vLocal, ro: 1, counter: true}
 		g.vars = append(g.vars, cv)
 		one := func() *E { return g.smallLit(t, 1, 1, g.r.Bool()) }
 		var dec *S
@@ -487,9 +680,13 @@ func (g *G) loop(o blockOpts) []*S {
 			dec = &S{K: SCompound, Name: cn, T: t, Op: "-", X: one()}
 		}
 		g.loops++
-		b, _ := g.block(body)
+		mark := len(g.vars)
+		b, div := g.stmts(body)
+		b = tail(b, div)
+		g.vars = g.vars[:mark]
 		g.loops--
 		cv.ro = 0 // assignable again after the loop; stays declared in the enclosing block
+		cv.counter = false
 		if g.r.Chance(2, 3) {
 			// for c > 0 { c = c - 1; ... }
 			s := &S{K: SForCond, X: mkCmp(">", mkVar(cn, t), g.smallLit(t, 0, 0, g.r.Bool()))}
@@ -530,7 +727,7 @@ func genExprFunc(r *prng.R, name string) *Func {
 // stmtFunc: locals, assignment, compound assignment, if / else if / else with early
 // return, bounded loops, optional stateful variables.
 func genStmtFunc(r *prng.R, name string, stateful bool) *Func {
-	g := &G{r: r, maxExpr: r.Range(2, 3)}
+	g := &G{r: r, maxExpr: r.Range(2, 3), hints: map[string][]Value{}}
 	f := &Func{Name: name, Ret: g.pickType(), Stateful: stateful}
 	g.ret = f.Ret
 	g.params(f, 1, 3)
@@ -552,8 +749,51 @@ func genStmtFunc(r *prng.R, name string, stateful bool) *Func {
 		}
 	}
 	body, _ := g.stmts(blockOpts{n: g.r.Range(2, 6), depth: 2, mayRet: true, noFinalD: true})
+	f.Hints = g.hints
 	f.Body = append(f.Body, body...)
 	f.Body = append(f.Body, g.finalReturn(f))
+	return f
+}
+
+var ctlParamTypes = []Typ{I64, I64, I32, I32, U32, U32, U64, U64, U8, I16, I8, U16, F64, F32}
+
+// genCtlFunc: control flow first. An i64 accumulator records the path; the body is a
+// sequence of loops (every form), if-chains (0..4 else-if arms, nested, with break /
+// continue / return / assignments in any arm) and accumulator updates, nested up to three
+// levels; the function returns the accumulator.
+func genCtlFunc(r *prng.R, name string) *Func {
+	g := &G{r: r, maxExpr: 2, ctl: true, hints: map[string][]Value{}}
+	f := &Func{Name: name, Ret: I64}
+	g.ret = I64
+	n := g.r.Range(1, 3)
+	for i := 0; i < n; i++ {
+		p := Param{Name: fmt.Sprintf("p%d", i), T: ctlParamTypes[g.r.Intn(len(ctlParamTypes))]}
+		f.Params = append(f.Params, p)
+		g.vars = append(g.vars, &gvar{name: p.Name, t: p.T, kind: vParam})
+	}
+	g.acc = "acc"
+	f.Body = append(f.Body, &S{K: SDecl, Name: "acc", T: I64, Explicit: true, X: litInt(I64, 0, true)})
+	g.vars = append(g.vars, &gvar{name: "acc", t: I64, kind: vLocal})
+	o := blockOpts{depth: 3, mayRet: true, noFinalD: true}
+	items := g.r.Range(2, 4)
+	loops := 0
+	for i := 0; i < items; i++ {
+		switch k := g.r.Intn(100); {
+		case k < 60 || (i == items-1 && loops == 0):
+			f.Body = append(f.Body, g.loop(o)...)
+			loops++
+		case k < 85:
+			f.Body = append(f.Body, g.ifStmt(o))
+		default:
+			f.Body = append(f.Body, g.bump())
+		}
+	}
+	if g.r.Chance(4, 5) {
+		f.Body = append(f.Body, &S{K: SReturn, X: mkVar("acc", I64)})
+	} else {
+		f.Body = append(f.Body, &S{K: SReturn, X: mkArith("+", mkVar("acc", I64), g.expr(I64, 2, true))})
+	}
+	f.Hints = g.hints
 	return f
 }
 
